@@ -92,6 +92,29 @@ def do_op(op, keep, rng=None, pool=None):
                 pass
         finally:
             sys.setrecursionlimit(old)
+    elif op == 'mutate_result':
+        from sqlparse import filters as _f, sql as _sql
+        text = rng.choice(pool[:12])
+        try:
+            for st in sqlparse.parse(text):
+                _f.ReindentFilter().process(st)
+                st.insert_before(0, _sql.Token(tokens.Comment.Single, '-- edited\n'))
+                for t in list(st.flatten())[:3]:
+                    t.value = t.value.upper()
+        except SQLParseError:
+            pass
+    elif op == 'bytes_nonutf8':
+        sqlparse.parse(b"select '\xe9t\xe9', \xff from t")
+        sqlparse.format(b'select caf\xe9 from t', reindent=True)
+    elif op == 'interleave_streams':
+        a, b = rng.choice(pool), rng.choice(pool)
+        try:
+            for _x, _y in zip(sqlparse.parsestream(a + '; select 1; select 2'), sqlparse.parsestream(b + '; select 3')):
+                pass
+        except SQLParseError:
+            pass
+    elif op == 'many_words':
+        sqlparse.split(' '.join('w%d' % i for i in range(70000)))
     elif op.startswith('pool_'):
         histrun.pool_call(op, rng.choice(pool))
     elif op == 'parse_junk':
